@@ -32,7 +32,7 @@ inductive Place (α : Type) where
   | pq (pos : Option (V3 α)) (quat : Option (Q4 α))
   /-- by a `fromto` attribute (`quat`, if written, is read by `_offset` but never changed) -/
   | fromto (a b : V3 α) (quat : Option (Q4 α))
-deriving Repr
+deriving Repr, DecidableEq
 
 inductive Elem (α : Type) where
   | body (name : String) (pos : Option (V3 α)) (quat : Option (Q4 α)) (children : List (Elem α))
